@@ -76,17 +76,31 @@ def run(ctx):
     with Pool(os.cpu_count()) as pool:
         real_lines = pool.map(spec_corr.real_canon, spec_cases, chunksize=500)
     spec_lines = lean.run_driver([tok_corr.req("spec-tok", c) for c in spec_cases])
-    for c, r, sp in zip(spec_cases, real_lines, spec_lines):
-        ctx.evaluations += 1
-        if r != sp:
+    diffs = [(c, r, sp) for c, r, sp in zip(spec_cases, real_lines, spec_lines) if r != sp]
+    ctx.evaluations += len(spec_cases)
+    # second pass for the recorded CDATA/NUL defect: it explains a difference iff the real tokenization equals the WHATWG
+    # tokenization of the input with the NULs inside CDATA sections already replaced
+    cand = {}
+    for c, r, sp in diffs:
+        if c[2] and "\x00" in c[3] and "<![CDATA[" in c[3]:
+            cand[c] = spec_corr.cdata_nul_candidates(c[3])
+    flat = [(c, t) for c, ts in cand.items() for t in ts]
+    cand_lines = lean.run_driver([tok_corr.req("spec-tok", (c[0], c[1], c[2], t)) for c, t in flat]) if flat else []
+    explained = {}
+    for (c, t), line in zip(flat, cand_lines):
+        explained.setdefault(c, set()).add(line)
+    for c, r, sp in diffs:
+        if r in explained.get(c, ()):
+            cls = "nul-in-cdata-section"
+        else:
             try:
                 cls = spec_corr.classify(c, spec_corr.dec_line(r), spec_corr.dec_line(sp))
             except Exception:
                 cls = "UNCLASSIFIED"
             if cls == "UNCLASSIFIED":
                 cls = "whatwg-differs:%s" % c[0]
-            ctx.fail(cls, "real tokenizer output differs from the WHATWG tokenization (H5.Spec.Tokenizer)",
-                     {"state": c[0], "lastStartTag": c[1], "cdata": c[2], "input": c[3][:200], "real": r[:300], "spec": sp[:300]})
+        ctx.fail(cls, "real tokenizer output differs from the WHATWG tokenization (H5.Spec.Tokenizer)",
+                 {"state": c[0], "lastStartTag": c[1], "cdata": c[2], "input": c[3][:200], "real": r[:300], "spec": sp[:300]})
     ctx.ops["real-vs-spec"] = len(spec_cases)
     reached = [n for n in tok_corr.ALL_STATES if stats["visited"] & tok_corr.STATE_BIT[n]]
     ctx.dist["states_reached"] = len(reached)
